@@ -2,8 +2,8 @@ import Driver.Common
 import FranzVerif.Model.Select
 /-! Sub-driver for the `sel` scenarios (C39 consumers consume exactly the partitions they select).
 
-input line:  `sel <seed> <mode> <steps> <cfgsel> | cfg:<mode> <events>`
-events:      Re:i Ex:i St:t Sp:t:p Cr:t:n:int:m:x Gr:t:n De:t At:t Ap:t:p Rp:t:p Pu:t D:id:t:p:off Dx V:t:p:off:id M Q
+input line:  `sel <seed> <mode> <steps> <cfgsel> [<plan>] | cfg:<mode>[:<plan>] <events>`
+events:      Re:i Ex:i St:t Sp:t:p Cr:t:g:n:int:m:x Gr:t:n De:t At:t Ap:t:p Rp:t:p Pu:t D:id:t:g:p:off Dx V:t:g:p:off:id E:t M Q
 output line: `* | verdict | nontrivial`   (scheduling decides when records are returned; the verdict carries the check)
 
 The verdict is the first `C39.` rule the monitor `Model.Select` refuses. -/
@@ -14,26 +14,30 @@ def parseEv (t : String) : Option (Option Ev) :=
   match t.splitOn ":" with
   | ["Re", _] => some none
   | ["Ex", _] => some none
+  | ["E", _] => some none
   | ["St", a] => do some (some (.selTopic (← a.toNat?)))
   | ["Sp", a, p] => do some (some (.selPart (← a.toNat?) (← p.toNat?)))
-  | ["Cr", a, n, i, m, x] => do some (some (.created (← a.toNat?) (← n.toNat?) (i == "1") (m == "1") (x == "1")))
+  | ["Cr", a, g, n, i, m, x] => do some (some (.created (← a.toNat?) (← g.toNat?) (← n.toNat?) (i == "1") (m == "1") (x == "1")))
   | ["Gr", a, n] => do some (some (.grown (← a.toNat?) (← n.toNat?)))
   | ["De", a] => do some (some (.deleted (← a.toNat?)))
   | ["At", a] => do some (some (.addTopic (← a.toNat?)))
   | ["Ap", a, p] => do some (some (.addPart (← a.toNat?) (← p.toNat?)))
   | ["Rp", a, p] => do some (some (.removePart (← a.toNat?) (← p.toNat?)))
   | ["Pu", a] => do some (some (.purged (← a.toNat?)))
-  | ["D", id, a, p, o] => do some (some (.produced (← id.toNat?) (← a.toNat?) (← p.toNat?) (← o.toNat?)))
+  | ["D", id, a, g, p, o] => do some (some (.produced (← id.toNat?) (← a.toNat?) (← g.toNat?) (← p.toNat?) (← o.toNat?)))
   | ["Dx"] => some (some .incomplete)
-  | ["V", a, p, o, id] => do some (some (.returned (← a.toNat?) (← p.toNat?) (← o.toNat?) (← id.toNat?)))
+  | ["V", a, g, p, o, id] => do some (some (.returned (← a.toNat?) (← g.toNat?) (← p.toNat?) (← o.toNat?) (← id.toNat?)))
   | ["M"] => some (some .refresh)
   | ["Q"] => some (some .quiesce)
   | _ => none
 
-def parseCfg (t : String) : Option Cfg :=
+/-- the configuration and the re-creation plan of the scenario (`y`: the unfair plan, a young topic re-created at once) -/
+def parseCfg (t : String) : Option (Cfg × String) :=
   match t.splitOn ":" with
-  | ["cfg", "r"] => some { regex := true }
-  | ["cfg", "n"] => some { regex := false }
+  | ["cfg", "r"] => some ({ regex := true }, "0")
+  | ["cfg", "n"] => some ({ regex := false }, "0")
+  | ["cfg", "r", pl] => some ({ regex := true }, pl)
+  | ["cfg", "n", pl] => some ({ regex := false }, pl)
   | _ => none
 
 def refusals (c : Cfg) : St → List Ev → List (String × St) → List (String × St)
@@ -43,11 +47,6 @@ def refusals (c : Cfg) : St → List Ev → List (String × St) → List (String
     | none => refusals c (apply c s e) es acc
     | some r => refusals c (apply c s e) es ((r, s) :: acc)
 
-/-- the produced records of selected live partitions that were never returned -/
-def uncovered (c : Cfg) (s : St) : List (Nat × Nat × Nat × Nat) :=
-  s.prod.filter (fun d => decide (d.2.2.1 < aliveParts s d.2.1) && selected c s d.2.1 d.2.2.1 &&
-        !s.ret.any (fun r => r.2.2.2 == d.1 && r.1 == d.2.1 && r.2.1 == d.2.2.1))
-
 /-- A coverage refusal is given a more specific stable key when every uncovered partition is explained by a known
 deviation of the code (named mode; `directConsumer.m` uses "topic present with no partitions" for "whole topic"):
   * `C39.whole-topic-demoted-by-add-partition`: the topic is selected as a whole (ConsumeTopics / AddConsumeTopics) and
@@ -55,8 +54,8 @@ deviation of the code (named mode; `directConsumer.m` uses "topic present with n
     topic as a whole, and partitions not yet assigned (created or grown later) are never consumed;
   * `C39.whole-topic-forgotten-after-partial-remove`: RemoveConsumePartitions of some (not all) partitions of a whole
     topic deletes `m[topic]`: the remaining partitions stay, partitions that appear later are never consumed. -/
-def refine (c : Cfg) (r : String) (s : St) : String :=
-  if r != "C39.selected-partition-not-consumed" || c.regex then r else
+def refineKnown (c : Cfg) (r : String) (s : St) : String :=
+  if c.regex then r else
   let cls := (uncovered c s).map (fun d =>
     if !s.whole.contains d.2.1 then 0
     else if s.pinned.any (·.1 == d.2.1) then 1
@@ -64,6 +63,13 @@ def refine (c : Cfg) (r : String) (s : St) : String :=
   if cls.isEmpty || cls.contains 0 then r
   else if cls.all (· == 1) then "C39.whole-topic-demoted-by-add-partition"
   else "C39.whole-topic-forgotten-after-partial-remove"
+
+def refine (c : Cfg) (plan : String) (r : String) (s : St) : String :=
+  if r != "C39.selected-partition-not-consumed" && r != "C39.recreated-topic-never-consumed" then r else
+  let r' := refineKnown c r s
+  -- the unfair plan `y` (never generated): a topic the client has known for less than the window, or that it never saw
+  -- missing, is not purged by the regex consumer; the cursors keep the old topic ID
+  if plan == "y" && r' == "C39.recreated-topic-never-consumed" then "C39.young-topic-recreated-at-once-never-consumed" else r'
 
 def handle (impl : String) : String :=
   if impl.startsWith "PANIC" || impl.startsWith "HANG" || impl.startsWith "ERR" then
@@ -74,12 +80,12 @@ def handle (impl : String) : String :=
   | ct :: ets =>
     match parseCfg ct with
     | none => "!bad-cfg | - | 0"
-    | some c =>
+    | some (c, plan) =>
       let evs := ets.map parseEv
       if evs.any (·.isNone) then "!bad-event | - | 0" else
       let es := (evs.filterMap id).filterMap id
-      let rs := (refusals c {} es []).map (fun p => refine c p.1 p.2)
-      let nRet := (es.filter (fun e => match e with | .returned _ _ _ _ => true | _ => false)).length
+      let rs := (refusals c {} es []).map (fun p => refine c plan p.1 p.2)
+      let nRet := (es.filter (fun e => match e with | .returned _ _ _ _ _ => true | _ => false)).length
       let nCall := (es.filter (fun e => match e with | .addTopic _ | .addPart _ _ | .removePart _ _ | .purged _ | .grown _ _ | .deleted _ => true | _ => false)).length
       let nt := boolStr (decide (nRet ≥ 5) && decide (nCall ≥ 3))
       match rs with
